@@ -136,6 +136,22 @@ PROPS = {
             "layer 2 runs with a minimal fixed environment; ASLR is left on there, so layer 2 also samples address-space layouts",
         ],
     },
+    "C15": {
+        "workloads": [("pdk", "c15", 5000, 80000, None)],
+        "rule": (
+            "one case = a session over a template process in which the four PDK packages are imported but unregistered: registration in a drawn order, optional set_default, optional "
+            "earlier elaborate / export, 1-3 compilations of a 1-3 module hierarchy with shared sub-modules (via the default PDK, by name, by module, or the PDK's own compile; on the top, "
+            "on a list, or leaf first), sometimes followed by another PDK, then export and spice / spectre netlisting; primitives are drawn from the target PDK's own tables (type/family/"
+            "threshold path and model-name path, sizes given or defaulted, multipliers), mixed with instances that must stay untouched; 1/8 of the requests are unsatisfiable; "
+            "oracle: snapshot of names / connections / targets before vs after, independent table selector, device ports = connected ports, equal parameters -> same call object, "
+            "second compile is a no-op, descriptive error for unsatisfiable requests; distinct = distinct (design, session)"
+        ),
+        "assumptions": [
+            "device tables are sampled (every entry is reachable); the exhaustive-per-entry reading of the quantifier and the ~3,100 logic cells are not covered by this technique",
+            "table entries whose device has a port no generic primitive has are a recorded known finding and are excluded from the random search (3 committed replays)",
+            "an ambiguous type/family/threshold request (several table entries match) may be refused with a descriptive error",
+        ],
+    },
     "C18": {
         "workloads": [("ns", "c18", 30000, 400000, None)],
         "rule": (
